@@ -173,7 +173,10 @@ impl FrequencySketch {
             count += (*entry & ONE_MASK).count_ones();
             *entry = (*entry >> 1) & RESET_MASK;
         }
-        self.size = (self.size >> 1) - (count >> 2);
+        // A quarter of the number of odd counters can exceed half of the sample count
+        // when the keys counted since the last reset shared few counters (each counted
+        // lookup adds one to `size` but makes up to four counters odd).
+        self.size = (self.size >> 1).saturating_sub(count >> 2);
     }
 
     /// Returns the table index for the counter at the specified depth.
